@@ -5,88 +5,113 @@ def sim(u, num, depth, fam="Fam_All", next_="NextSim", **kw):
     d.update(kw)
     return d
 
+def cov(u, scripts, focus, sample, fam="Fam_All", depth=1, **kw):
+    d = dict(u=u, scripts=scripts, focus=focus, sample=sample, fam=fam, depth=depth)
+    d.update(kw)
+    return d
+
+
+def covers(focus, q=(260, 200), t=(2500, 2500, 1200, 800)):
+    return {"quick": [cov("U1", "U1_ScriptsQ", focus, q[0]), cov("U2", "U2_ScriptsQ", focus, q[1])],
+            "thorough": [cov("U1", "U1_Scripts", focus, t[0]), cov("U2", "U2_Scripts", focus, t[1]),
+                         cov("U3", "U3_Scripts", focus, t[2]), cov("U4", "U4_Scripts", focus, t[3])]}
+
+
 STRUCT = {"envcombine", "envreorder", "cecombine", "cereorder", "traceout", "newcomposite"}
 
 REPLAY_PLANS = {
     "C01": dict(
+        cover=covers("F_Op"),
         actions={"op1", "opn", "opk"},
-        exhaustive={"quick": [("U1", 4, "Fam_C01")], "thorough": [("U1", 5, "Fam_C01")]},
+        exhaustive={"quick": [("U1", 3, "Fam_C01")], "thorough": [("U1", 4, "Fam_C01")]},
         simulate={"quick": [sim("U1", 96, 10, "Fam_C01", "NextSim_Op"), sim("U2", 48, 10, "Fam_C01", "NextSim_Op")],
                   "thorough": [sim("U1", 800, 12, "Fam_C01", "NextSim_Op"), sim("U2", 400, 12, "Fam_C01", "NextSim_Op"),
                                sim("U3", 200, 10, "Fam_C01", "NextSim_Op")]}),
     "C02": dict(
+        cover=covers("F_Struct"),
         actions=STRUCT,
-        exhaustive={"quick": [("U1", 4, "Fam_C02")], "thorough": [("U1", 5, "Fam_C02")]},
+        exhaustive={"quick": [("U1", 3, "Fam_C02")], "thorough": [("U1", 4, "Fam_C02")]},
         simulate={"quick": [sim("U1", 96, 10, "Fam_C02", "NextSim_Struct"), sim("U2", 48, 10, "Fam_C02", "NextSim_Struct")],
                   "thorough": [sim("U1", 800, 12, "Fam_C02", "NextSim_Struct"), sim("U2", 400, 12, "Fam_C02", "NextSim_Struct"),
                                sim("U3", 200, 12, "Fam_C02", "NextSim_Struct")]}),
     "C03": dict(
+        cover=covers("F_Comp"),
         actions={"opn", "opk"},
-        exhaustive={"quick": [("U4", 4, "Fam_C03")], "thorough": [("U4", 5, "Fam_C03")]},
+        exhaustive={"quick": [("U4", 3, "Fam_C03")], "thorough": [("U4", 4, "Fam_C03")]},
         ex_init={"U4": "U4_ExInit"},
         simulate={"quick": [sim("U2", 64, 10, "Fam_C03", "NextSim_Comp"), sim("U3", 64, 10, "Fam_C03", "NextSim_Comp")],
                   "thorough": [sim("U2", 500, 12, "Fam_C03", "NextSim_Comp"), sim("U3", 500, 12, "Fam_C03", "NextSim_Comp"),
                                sim("U1", 200, 12, "Fam_C03", "NextSim_Comp")]}),
     "C04": dict(
+        cover=covers("F_Measure"),
         actions={"measure"},
-        exhaustive={"quick": [("U1", 4, "Fam_C04")], "thorough": [("U1", 5, "Fam_C04")]},
+        exhaustive={"quick": [("U1", 3, "Fam_C04")], "thorough": [("U1", 4, "Fam_C04")]},
         simulate={"quick": [sim("U1", 96, 9, "Fam_C04", "NextSim_Measure"), sim("U2", 48, 9, "Fam_C04", "NextSim_Measure")],
                   "thorough": [sim("U1", 800, 11, "Fam_C04", "NextSim_Measure"), sim("U2", 400, 11, "Fam_C04", "NextSim_Measure"),
                                sim("U3", 200, 11, "Fam_C04", "NextSim_Measure")]}),
     "C05": dict(
+        cover=covers("F_Measure"),
         actions={"measure", "invalid"},
-        exhaustive={"quick": [("U1", 4, "Fam_C05")], "thorough": [("U1", 5, "Fam_C05")]},
+        exhaustive={"quick": [("U1", 3, "Fam_C05")], "thorough": [("U1", 4, "Fam_C05")]},
         simulate={"quick": [sim("U1", 96, 9, "Fam_C05", "NextSim_Measure"), sim("U2", 48, 9, "Fam_C05", "NextSim_Measure")],
                   "thorough": [sim("U1", 800, 11, "Fam_C05", "NextSim_Measure"), sim("U2", 400, 11, "Fam_C05", "NextSim_Measure"),
                                sim("U3", 200, 11, "Fam_C05", "NextSim_Measure")]}),
     "C06": dict(
+        cover=covers("F_Kraus"),
         actions={"kraus"},
-        exhaustive={"quick": [("U1", 4, "Fam_C06")], "thorough": [("U1", 5, "Fam_C06")]},
+        exhaustive={"quick": [("U1", 3, "Fam_C06")], "thorough": [("U1", 4, "Fam_C06")]},
         simulate={"quick": [sim("U1", 96, 10, "Fam_C06", "NextSim_Kraus"), sim("U2", 40, 9, "Fam_C06", "NextSim_Kraus")],
                   "thorough": [sim("U1", 800, 12, "Fam_C06", "NextSim_Kraus"), sim("U2", 300, 10, "Fam_C06", "NextSim_Kraus"),
                                sim("U3", 200, 10, "Fam_C06", "NextSim_Kraus")]}),
     "C08": dict(
+        cover=covers("F_Contr"),
         actions={"expand", "contract", "setcontraction", "op1", "kraus"},
-        exhaustive={"quick": [("U1", 4, "Fam_C08")], "thorough": [("U1", 5, "Fam_C08")]},
+        exhaustive={"quick": [("U1", 3, "Fam_C08")], "thorough": [("U1", 4, "Fam_C08")]},
         simulate={"quick": [sim("U1", 96, 10, "Fam_C08", "NextSim_Struct"), sim("U2", 48, 10, "Fam_C08", "NextSim_Struct")],
                   "thorough": [sim("U1", 800, 12, "Fam_C08", "NextSim_Struct"), sim("U2", 400, 12, "Fam_C08", "NextSim_Struct")]}),
     "C09": dict(
+        cover=covers("F_Povm"),
         actions={"povm"},
-        exhaustive={"quick": [("U1", 4, "Fam_C09")], "thorough": [("U1", 5, "Fam_C09")]},
+        exhaustive={"quick": [("U1", 3, "Fam_C09")], "thorough": [("U1", 4, "Fam_C09")]},
         simulate={"quick": [sim("U1", 96, 9, "Fam_C09", "NextSim_Povm"), sim("U2", 40, 9, "Fam_C09", "NextSim_Povm")],
                   "thorough": [sim("U1", 800, 11, "Fam_C09", "NextSim_Povm"), sim("U2", 300, 10, "Fam_C09", "NextSim_Povm"),
                                sim("U3", 200, 10, "Fam_C09", "NextSim_Povm")]}),
     "C10": dict(
+        cover=covers("F_Resize"),
         actions={"resize", "op1", "opn"},
-        exhaustive={"quick": [("U1", 4, "Fam_C10")], "thorough": [("U1", 5, "Fam_C10")]},
+        exhaustive={"quick": [("U1", 3, "Fam_C10")], "thorough": [("U1", 4, "Fam_C10")]},
         simulate={"quick": [sim("U1", 96, 10, "Fam_C10", "NextSim_Resize"), sim("U4", 64, 10, "Fam_C10", "NextSim_Resize")],
                   "thorough": [sim("U1", 800, 12, "Fam_C10", "NextSim_Resize"), sim("U4", 500, 12, "Fam_C10", "NextSim_Resize"),
                                sim("U2", 200, 12, "Fam_C10", "NextSim_Resize")]}),
     "C11": dict(
+        cover=covers("F_Op"),
         actions={"opn", "op1"},
-        exhaustive={"quick": [("U4", 4, "Fam_C11")], "thorough": [("U4", 5, "Fam_C11")]},
+        exhaustive={"quick": [("U4", 3, "Fam_C11")], "thorough": [("U4", 4, "Fam_C11")]},
         ex_init={"U4": "U4_ExInit"},
         simulate={"quick": [sim("U4", 128, 10, "Fam_C11", "NextSim_Comp", over={"PolGates": "None", "CompGates": "BS_Gates", "FockGates": "PS_Gates", "CustomOps2": "None", "CustomOps3": "None"})],
                   "thorough": [sim("U4", 1000, 13, "Fam_C11", "NextSim_Comp", over={"PolGates": "None", "CompGates": "BS_Gates", "FockGates": "PS_Gates", "CustomOps2": "None", "CustomOps3": "None"}),
                                sim("U2", 300, 12, "Fam_C11", "NextSim_Comp", over={"CompGates": "BS_Gates", "FockGates": "PS_Gates"})]}),
     "C17": dict(
-        actions={"invalid", "op1", "resize"},
-        exhaustive={"quick": [("U1", 4, "Fam_C17")], "thorough": [("U1", 5, "Fam_C17")]},
+        cover=covers("F_Invalid"),
+        actions={"invalid", "op1", "resize"}, level="fault_enumeration",
+        exhaustive={"quick": [("U1", 3, "Fam_C17")], "thorough": [("U1", 4, "Fam_C17")]},
         simulate={"quick": [sim("U1", 96, 10, "Fam_C17", "NextSim_Invalid"), sim("U2", 48, 10, "Fam_C17", "NextSim_Invalid")],
                   "thorough": [sim("U1", 800, 12, "Fam_C17", "NextSim_Invalid"), sim("U2", 400, 12, "Fam_C17", "NextSim_Invalid"),
                                sim("U3", 200, 12, "Fam_C17", "NextSim_Invalid")]}),
     "C18": dict(
+        cover=covers("F_Measure"),
         actions={"measure", "cecombine", "cereorder", "traceout", "opn", "povm"},
-        exhaustive={"quick": [("U4", 4, "Fam_C18")], "thorough": [("U4", 5, "Fam_C18")]},
+        exhaustive={"quick": [("U4", 3, "Fam_C18")], "thorough": [("U4", 4, "Fam_C18")]},
         ex_init={"U4": "U4_ExInit"},
         simulate={"quick": [sim("U2", 64, 9, "Fam_C18", "NextSim_Measure", init="U2_Same"), sim("U3", 64, 9, "Fam_C18", "NextSim_Measure", init="U3_Same")],
                   "thorough": [sim("U2", 500, 11, "Fam_C18", "NextSim_Measure", init="U2_Same"), sim("U3", 500, 11, "Fam_C18", "NextSim_Measure", init="U3_Same")]}),
 }
 
 REPLAY_PLANS["C15"] = dict(
+    cover=covers("F_Op"),
     actions={"op1", "opn", "opk"},
     env={"VERIF_REUSE_OPS": "1"}, claims_actions=True,
-    exhaustive={"quick": [("U1", 4, "Fam_C01")], "thorough": [("U1", 5, "Fam_C01")]},
+    exhaustive={"quick": [("U1", 3, "Fam_C01")], "thorough": [("U1", 4, "Fam_C01")]},
     simulate={"quick": [sim("U1", 72, 12, "Fam_C15", "NextSim_Comp", ops="R"), sim("U2", 48, 12, "Fam_C15", "NextSim_Comp", ops="R"),
                         sim("U3", 32, 12, "Fam_C15", "NextSim_Comp", ops="R")],
               "thorough": [sim("U1", 600, 14, "Fam_C15", "NextSim_Comp", ops="R"), sim("U2", 400, 14, "Fam_C15", "NextSim_Comp", ops="R"),
@@ -95,19 +120,23 @@ REPLAY_PLANS["C15"] = dict(
 
 TRACE_PLANS = {
     "C07": dict(
-        exhaustive={"quick": [("U1", 4, "Fam_All")], "thorough": [("U1", 5, "Fam_All")]},
+        cover={"quick": [cov("U1", "U1_ScriptsQ", "F_Op", 200), cov("U2", "U2_ScriptsReg", "F_Reg", 100)],
+               "thorough": [cov("U1", "U1_Scripts", "F_Op", 1500), cov("U2", "U2_ScriptsReg", "F_Reg", 1500)]},
+        exhaustive={"quick": [("U1", 3, "Fam_All")], "thorough": [("U1", 4, "Fam_All")]},
         simulate={"quick": [sim("U1", 64, 10, "Fam_All", "NextSim_Op"), sim("U2", 32, 10, "Fam_All", "NextSim_Op")],
                   "thorough": [sim("U1", 500, 12, "Fam_All", "NextSim_Op"), sim("U2", 300, 12, "Fam_All", "NextSim_Op"),
                                sim("U3", 200, 12, "Fam_All", "NextSim_Op")]},
         drivers={"quick": (24, 20), "thorough": (400, 40)}),
     "C13": dict(
-        exhaustive={"quick": [("U4", 4, "Fam_All")], "thorough": [("U4", 5, "Fam_All")]},
+        cover={"quick": [cov("U2", "U2_ScriptsReg", "F_Reg", 300)], "thorough": [cov("U2", "U2_ScriptsReg", "F_Reg", 3000, depth=2)]},
+        exhaustive={"quick": [("U4", 3, "Fam_All")], "thorough": [("U4", 4, "Fam_All")]},
         simulate={"quick": [sim("U2", 48, 11, "Fam_All", "NextSim_Struct"), sim("U3", 48, 11, "Fam_All", "NextSim_Struct")],
                   "thorough": [sim("U2", 400, 13, "Fam_All", "NextSim_Struct"), sim("U3", 400, 13, "Fam_All", "NextSim_Struct"),
                                sim("U1", 200, 12, "Fam_All", "NextSim_Struct")]},
         drivers={"quick": (24, 20), "thorough": (400, 40)}),
     "C20": dict(
-        exhaustive={"quick": [("U4", 4, "Fam_All")], "thorough": [("U4", 5, "Fam_All")]},
+        cover={"quick": [cov("U2", "U2_ScriptsReg", "F_Reg", 300)], "thorough": [cov("U2", "U2_ScriptsReg", "F_Reg", 3000, depth=2)]},
+        exhaustive={"quick": [("U4", 3, "Fam_All")], "thorough": [("U4", 4, "Fam_All")]},
         simulate={"quick": [sim("U2", 48, 11, "Fam_All", "NextSim_Comp"), sim("U3", 48, 11, "Fam_All", "NextSim_Comp")],
                   "thorough": [sim("U2", 400, 13, "Fam_All", "NextSim_Comp"), sim("U3", 400, 13, "Fam_All", "NextSim_Comp"),
                                sim("U1", 200, 12, "Fam_All", "NextSim_Comp")]},
